@@ -25,7 +25,7 @@ class Ob:
     def __init__(self, id, props, tu, roots, harness, entry='harness', spec=None, enforce=None, replace=(),
                  tier='U', unwind=None, unwindset=None, defines=None, cfg='kernel', timeout=300, quick=True,
                  covers=0, expect_loops=(), note='', flags=(), bounds=None, loop_contracts=True, object_bits=12,
-                 expected_fail=(), kissat=False, spec_text='', includes=(), copies=(), stubs=None, inline_vec=False, adaptive_unwind=True, inits=None, prebuild_shape=None, unwind_start=3, quick_for=None, preamble='', mem_gb=None, circ_class='TopologyKernel', preamble_after='', py_check=None):
+                 expected_fail=(), kissat=False, spec_text='', includes=(), copies=(), stubs=None, inline_vec=False, adaptive_unwind=True, inits=None, prebuild_shape=None, unwind_start=3, quick_for=None, preamble='', mem_gb=None, circ_class='TopologyKernel', preamble_after='', py_check=None, prebuild_call=None, enum=None):
         self.id = id; self.props = props; self.tu = tu; self.roots = roots; self.harness = harness; self.entry = entry
         self.mesh_harness = None
         if not isinstance(harness, str):
@@ -34,7 +34,7 @@ class Ob:
         self.unwind = unwind; self.unwindset = unwindset; self.defines = defines or {}; self.cfg = cfg
         self.timeout = timeout; self.quick = quick; self.covers = covers; self.expect_loops = expect_loops
         self.note = note; self.flags = list(flags); self.bounds = bounds or {}; self.loop_contracts = loop_contracts
-        self.object_bits = object_bits; self.expected_fail = expected_fail; self.kissat = kissat; self.spec_text = spec_text; self.includes = list(includes); self.copies = list(copies); self.stubs = stubs or {}; self.inline_vec = inline_vec; self.adaptive_unwind = adaptive_unwind; self.inits = inits or {}; self.prebuild_shape = prebuild_shape; self.unwind_start = unwind_start; self.quick_for = quick_for; self.preamble = preamble; self.mem_gb = mem_gb; self.circ_class = circ_class; self.preamble_after = preamble_after; self.py_check = py_check
+        self.object_bits = object_bits; self.expected_fail = expected_fail; self.kissat = kissat; self.spec_text = spec_text; self.includes = list(includes); self.copies = list(copies); self.stubs = stubs or {}; self.inline_vec = inline_vec; self.adaptive_unwind = adaptive_unwind; self.inits = inits or {}; self.prebuild_shape = prebuild_shape; self.unwind_start = unwind_start; self.quick_for = quick_for; self.preamble = preamble; self.mem_gb = mem_gb; self.circ_class = circ_class; self.preamble_after = preamble_after; self.py_check = py_check; self.prebuild_call = prebuild_call; self.enum = enum
 
 # ---------------------------------------------------------------------------------------------- AST cache
 TUS = {'kernel': 'tu/kernel.cc', 'tethex': 'tu/tethex.cc', 'ovmb': 'tu/ovmb.cc', 'vector': 'tu/vector.cc', 'props': 'tu/props.cc'}
@@ -241,7 +241,7 @@ def run_ob(ob, tier, workdir):
             pb = os.path.join(d, 'prebuild.c')
             open(pb, 'w').write('#include <stdio.h>\n#include <stdlib.h>\n#define __CPROVER_assert(c, m) do { if (!(c)) { fprintf(stderr, "prebuild assertion failed: %s\\n", m); exit(3); } } while (0)\n#define __CPROVER_assume(c) ((void)0)\n'
                               'int nondet_int(void) { return 0; } unsigned long nondet_ulong(void) { return 0; } _Bool nondet_bool(void) { return 0; }\n' + head +
-                              'int main(void) { TK m; shape_build(&m, %d); if (!wf(&m) || ovm_exc) { fprintf(stderr, "shape not well-formed\\n"); return 4; } witness(&m, 0, 0, 0, 0); for (unsigned long i = 0; i < WN; i++) printf("%%d,", ovm_w[i]); printf("\\n"); return 0; }\n' % ob.prebuild_shape)
+                              'int main(void) { TK m; ' + (ob.prebuild_call or 'shape_build(&m, %d);' % ob.prebuild_shape) + ' if (!wf(&m) || ovm_exc) { fprintf(stderr, "shape not well-formed\\n"); return 4; } witness(&m, 0, 0, 0, 0); for (unsigned long i = 0; i < WN; i++) printf("%d,", ovm_w[i]); printf("\\n"); return 0; }\n')
             rcp, outp, _ = sh(['gcc', '-O0', '-w', '-I', ROOT, 'prebuild.c', '-o', 'prebuild'], 300, log, cwd=d)
             if rcp != 0: raise Cxx2cError('prebuild of shape failed to compile: ' + outp[-500:])
             pr = subprocess.run([os.path.join(d, 'prebuild')], stdout=subprocess.PIPE, stderr=subprocess.PIPE, timeout=60)
@@ -257,7 +257,7 @@ def run_ob(ob, tier, workdir):
         open(log, 'a').write(res['reason']); res['wall_s'] = time.time() - t0
         return res
     # content-addressed result cache: identical formula (generated text + harness + flags + tool version) is solved once per session
-    key = hashlib.sha256(('\0'.join([ctext, open(hpath).read(), repr((ob.enforce, ob.replace, ob.loop_contracts, ob.unwind, ob.unwindset, ob.flags, ob.object_bits, ob.kissat, ob.covers, CBMC_FLAGS)), cbmc_version()] + [open(os.path.join(ROOT, 'spec', h)).read() for h in ['common.h'] + ob.includes])).encode()).hexdigest()
+    key = hashlib.sha256(('\0'.join([ctext, open(hpath).read(), repr((ob.enforce, ob.replace, ob.loop_contracts, ob.unwind, ob.unwindset, ob.flags, ob.object_bits, ob.kissat, ob.covers, CBMC_FLAGS, [(n, list(v)) for n, v in (ob.enum or [])])), cbmc_version()] + [open(os.path.join(ROOT, 'spec', h)).read() for h in ['common.h'] + ob.includes])).encode()).hexdigest()
     cpath = os.path.join(BUILD, 'cache', key + '.json')
     if os.path.exists(cpath) and not os.environ.get('VERIF_NOCACHE'):
         c = json.load(open(cpath))
@@ -269,7 +269,10 @@ def run_ob(ob, tier, workdir):
             res['wall_s'] = time.time() - t0
             return res
     res['cache_path'] = cpath
-    rc, out, _ = sh(['goto-cc', '--function', ob.entry, 'h.c', '-o', 'a.gb', '-I', ROOT], 120, log, cwd=d)
+    import itertools
+    combos = list(itertools.product(*[list(v) for _, v in ob.enum])) if ob.enum else [()]
+    enum_defs = lambda combo: ['-D%s=%s' % (nv[0], c) for nv, c in zip(ob.enum or [], combo)]
+    rc, out, _ = sh(['goto-cc', '--function', ob.entry, 'h.c', '-o', 'a.gb', '-I', ROOT] + enum_defs(combos[0]), 120, log, cwd=d)
     if rc != 0:
         res['status'] = 'undecided'; res['reason'] = 'goto-cc failed: ' + out[-800:]; res['wall_s'] = time.time() - t0; return res
     binp = 'a.gb'
@@ -323,7 +326,42 @@ def run_ob(ob, tier, workdir):
         if ob.unwind is not None: ob_unwind_flags += ['--unwind', str(ob.unwind)]
         if uset: ob_unwind_flags += ['--unwindset', ','.join('%s:%d' % kv for kv in sorted(uset.items()))]
         cb += ob_unwind_flags + (['--unwinding-assertions'] if ob_unwind_flags else [])
-        rc, out, dt = sh(cb, to, log, cwd=d, mem_gb=memgb)
+        if True:
+            rc, out, dt = sh(cb, to, log, cwd=d, mem_gb=memgb)
+    if ob.enum and ('VERIFICATION SUCCESSFUL' in out):
+        # enumeration: one CBMC run per combination of the -D macros (each run decides a concrete instance), all with the
+        # unwinding found for the first instance; results are merged per property name, a property fails if it fails in
+        # any instance; stops at the first failing instance (whose binary stays in place for the trace)
+        agg = {}; verdict = 'VERIFICATION SUCCESSFUL'; nrun = 1
+        for (nm, _l, desc, stt) in [(m.group(1), 0, m.group(3), m.group(4)) for m in RES_RE.finditer(out)]: agg[nm] = (nm, desc, stt)
+        cbE = cb0 + ob_unwind_flags + (['--unwinding-assertions'] if ob_unwind_flags else [])
+        for combo in combos[1:]:
+            rc, outE, _ = sh(['goto-cc', '--function', ob.entry, 'h.c', '-o', 'a.gb', '-I', ROOT] + enum_defs(combo), 120, log, cwd=d)
+            if rc != 0: verdict = 'goto-cc failed for %s' % (combo,); break
+            for _rnd in range(20):
+                rc, outE, d1 = sh(cbE, to, log, cwd=d, mem_gb=memgb); dt += d1
+                badE = [m.group(1) for m in re.finditer(r'^\[([^\]]+\.unwind\.\d+)\] .*unwinding assertion loop \d+: FAILURE', outE, re.M)]
+                if not (badE and ob.adaptive_unwind and ob.unwind is not None): break
+                grownE = False
+                for b in badE:       # this instance takes a path with longer loops: raise those bounds (kept for the following instances)
+                    fn, nn = b.rsplit('.unwind.', 1); lid = '%s.%s' % (fn, nn); cur = uset.get(lid, U0)
+                    if cur < ob.unwind: uset[lid] = min(ob.unwind, cur + 2); grownE = True
+                if not grownE: break
+                ob_unwind_flags = ['--unwind', str(U0)] + ['--unwindset', ','.join('%s:%d' % kv for kv in sorted(uset.items()))]
+                cbE = cb0 + ob_unwind_flags + ['--unwinding-assertions']
+            nrun += 1
+            rs = [(m.group(1), m.group(3), m.group(4)) for m in RES_RE.finditer(outE)]
+            if not rs or ('VERIFICATION SUCCESSFUL' not in outE and 'VERIFICATION FAILED' not in outE):
+                verdict = 'no verdict for instance %s' % (combo,); break
+            for (nm, desc, stt) in rs:
+                if nm not in agg or (stt != 'SUCCESS' and agg[nm][2] == 'SUCCESS'):
+                    agg[nm] = (nm, desc + ('' if stt == 'SUCCESS' else ' [instance %s]' % ' '.join(enum_defs(combo))), stt)
+            if 'VERIFICATION FAILED' in outE: verdict = 'VERIFICATION FAILED'; break
+        res['enumerated_instances'] = nrun
+        out = verdict + '\n' + '\n'.join('[%s] line 0 %s: %s' % r for r in agg.values()) + '\n'
+        rc = 0
+    elif ob.enum:
+        res['enumerated_instances'] = 1
     res['unwind_flags'] = ob_unwind_flags
     res['solver_s'] = dt
     results = [(m.group(1), m.group(3), m.group(4)) for m in RES_RE.finditer(out)]
@@ -351,7 +389,7 @@ def run_ob(ob, tier, workdir):
             res['status'] = 'undecided'; res['reason'] = 'loop contract silently dropped (no loop_invariant_step obligations)'
     # vacuity: cover points (build with -DCOVER_RUN: each COVER(c) becomes assert(!c) and must FAIL, i.e. be reachable)
     if res['status'] == 'pass' and ob.covers:
-        rc2, out2, _ = sh(['goto-cc', '--function', ob.entry, '-DCOVER_RUN', 'h.c', '-o', 'c.gb', '-I', ROOT], 120, log, cwd=d)
+        rc2, out2, _ = sh(['goto-cc', '--function', ob.entry, '-DCOVER_RUN', 'h.c', '-o', 'c.gb', '-I', ROOT] + enum_defs(combos[0]), 120, log, cwd=d)
         cb2 = ['cbmc', 'c.gb', '--no-malloc-may-fail', '--no-standard-checks'] + res.get('unwind_flags', [])
         if ob.object_bits: cb2 += ['--object-bits', str(ob.object_bits)]
         rc2, out2, dt2 = sh(cb2, to, log, cwd=d)
